@@ -189,6 +189,7 @@ func run(c *hk.Ctx) {
 	for _, s := range en2.Schedules {
 		runSchedule(c, ctl, s, false)
 	}
+	runRequestSchedules(c, ctl)
 	mcp.VerifSetYield(nil)
 	runRaceStress(c)
 }
